@@ -31,7 +31,10 @@ def shapes(thorough, rnd):
         nx = 3 if thorough else 2
         xp = {}
         for k in range(nx):
-            xp["x%dp" % (k + 1)] = {"flavour": xf, "args": [k, "a"], "kwargs": {"kw": [k]}}
+            # argument lists incl. empty / longer tuples as single positionals; every second
+            # executed coroutine payload is a plain callable (its CALL may already fail)
+            args = [[k, "a"], [{"__tuple__": []}, {"__tuple__": [k, "b"]}], [{"__tuple__": [k, k, k]}]][(k + n) % 3]
+            xp["x%dp" % (k + 1)] = {"flavour": xf, "args": args, "kwargs": {"kw": [k]}, "plaincall": (k + n) % 2 == 1}
         payloads.update(xp)
         proto = [{"op": "adopt", "p": "b1"}, {"op": "adopt", "p": "b2"}, {"op": "adopt", "p": "b3"}, {"op": "accept"}] + [{"op": "execute", "p": p, "how": "none"} for p in xp]
         out.append({"title": "execute flavour %s from %s" % (xf, ctxk), "payloads": payloads, "proto_script": proto, "hows": {p: HOWS for p in payloads},
